@@ -106,6 +106,10 @@ REGISTRY.truth[SymBytes] = lambda it, v: it.truth(mk_bool(as_int_term(v.length) 
 # ---------------------------------------------------------------------------------------------------
 # files and filesystems
 # ---------------------------------------------------------------------------------------------------
+def inv_is(f, S):
+    return getattr(f, "position_invariant", None) is S
+
+
 class SymFile:
     is_symbolic_value = True
 
@@ -128,6 +132,13 @@ class SymFile:
         self.pos, self.closed = snap
 
     def begin_trial(self, iv):
+        inv = getattr(self, "position_invariant", None)
+        if inv is not None and self.it.path.entails(as_int_term(self.pos) == inv(z3.IntVal(0))):
+            # loop invariant supplied by the contract: position before iteration iv (assumed here, verified in
+            # end_trial); loops that do not start at the invariant's initial position are handled generically
+            self._trial = (inv, self.pos)
+            self.pos = mk_int(inv(iv))
+            return
         S = z3.Function(fresh_name("pos"), z3.IntSort(), z3.IntSort())
         self._trial = (S, self.pos)
         self.pos = mk_int(S(iv))
@@ -143,6 +154,16 @@ class SymFile:
             self.pos = pos0
             self._trial = None
             return None
+        if inv_is(self, S):
+            if not self.it.path.entails(after == S(iv + 1)):
+                raise Unsupported("file position invariant is not preserved by the loop body")
+            self.it.path.__dict__.setdefault("notes", []).append("file position invariant verified (init, preservation)")
+            self.it.path.__dict__.setdefault("position_folds", []).append(
+                {"S": S, "n": n, "iv": iv, "after": after, "pos0": pos0, "file": self})
+            self.pos = mk_int(z3.simplify(S(n)) if z3.is_expr(n) else S(z3.IntVal(n)))
+            self._fold = S
+            self._trial = None
+            return S
         H = self.it.path.add_hyp
         H(S(0) == as_int_term(pos0))
         H(z3.ForAll([iv], z3.Implies(z3.And(iv >= 0, iv < n), S(iv + 1) == after), patterns=[S(iv + 1)]))
@@ -605,7 +626,7 @@ class SymNdOpaque:
             v = self.data.at(k)
         elif isinstance(self.data, (list, tuple)) and isinstance(k, int):
             v = self.data[k]
-        elif hasattr(self.data, "sym_getitem"):
+        elif hasattr(type(self.data), "sym_getitem"):
             v = self.data.sym_getitem(it, k)
         else:
             raise Unsupported("element of opaque array at a symbolic index of a concrete list")
